@@ -15,6 +15,7 @@ DEMO_ENV = {("C19", 2, 2): {"DEMO_GOARCH": "386"}, ("C19", 2, 3): {"DEMO_FLAGS":
             ("C03", 5, 2): {"DEMO_GOARCH": "386"}, ("C13", 5, 3): {"DEMO_FLAGS": "-race"}, ("C19", 5, 1): {"DEMO_FLAGS": "-race"},
             ("C14", 6, 1): {"DEMO_GOARCH": "386"}, ("C05", 6, 3): {"DEMO_GOARCH": "386"}, ("C19", 6, 1): {"DEMO_FLAGS": "-race"},
             ("C08", 7, 3): {"DEMO_GOARCH": "386"}}
+DEMO_ENV.update({("C19", 8, 1): {"DEMO_FLAGS": "-race"}, ("C19", 8, 2): {"DEMO_GOARCH": "386"}, ("C19", 8, 3): {"DEMO_FLAGS": "-race"}})
 def one_prop(p):
     for k in ((1, 2) if ROUND == 1 else (1, 2, 3)):
         sub = "_mutants" if ROUND == 1 else "_mutants%d" % ROUND
